@@ -250,6 +250,113 @@ def or_fatal_jobs(ctx, n):
     return jobs
 
 
+def dash_context_jobs(ctx, n):
+    """template stream: (a) an error stop INSIDE a lookahead (FollowedBy / the first pass of Or) that is evaluated
+    without actions - the candidate scan of an enclosing Or, a SkipTo target - inside Opt / ZeroOrMore / MatchFirst;
+    (b) a sequence with '-' whose whitespace characters were changed after construction (copy + set_whitespace_chars,
+    leave_whitespace) - the error stop must keep protecting what follows it"""
+    jobs = []
+    for i in range(n):
+        r = random.Random(f"C07-{ctx.seed}-dctx-{i}")
+        prog = [["a", "Literal", "a"], ["b", "Literal", "b"], ["c", "Literal", "c"], ["w", "Word", "abc"]]
+        prog.append(["s1", "-", "a", "b"])
+        if r.random() < 0.5:
+            prog.append(["s", "+", "s1", "c"])
+        else:
+            prog.append(["s", "copy", "s1"])
+        k = r.random()
+        if k < 0.5:
+            # (a) lookahead
+            prog.append(["fb", "FollowedBy", "s"])
+            prog.append(["alt1", "+", "fb", "w"])
+            prog.append(["alt2", "+", "c", "w"])
+            how = r.choice(["or", "or", "skipto", "plain"])
+            if how == "or":
+                prog.append(["core", "Or", ["alt1", "alt2"]])
+            elif how == "skipto":
+                prog.append(["core", "SkipTo", "fb"])
+            else:
+                prog.append(["core", "copy", "alt1"])
+        else:
+            # (b) whitespace override applied to the sequence afterwards
+            op = r.choice(["set_whitespace_chars", "set_whitespace_chars", "leave_whitespace"])
+            prog.append(["core", op, "s"] + ([r.choice([" \t", " ", "\n "])] if op == "set_whitespace_chars" else []))
+        wrap = r.choice(["Opt", "ZeroOrMore", "MatchFirst", "none", "Group"])
+        if wrap == "Opt":
+            prog += [["o", "Opt", "core"], ["root", "+", "o", "w"]]
+        elif wrap == "ZeroOrMore":
+            prog += [["o", "ZeroOrMore", "core"], ["root", "+", "o", "w"]]
+        elif wrap == "MatchFirst":
+            prog.append(["root", "MatchFirst", ["core", "w"]])
+        elif wrap == "Group":
+            prog += [["g", "Group", "core"], ["root", "|", "g", "w"]]
+        else:
+            prog.append(["root", "copy", "core"])
+        inputs = ["a c", "a b", "a b c", "ab", "a", "a bc", "ac", "a\tb c", "a\nc", "x a c", "c a"]
+        jobs.append(dict(prog=prog, root="root", inputs=inputs, entries=[("parse", ()), ("scan", (100, True, False))], modes=[("none",)]))
+    return jobs
+
+
+def ref_job(job):
+    """worker: the independent reading (harness/peg_ref.py with error stops: '-' makes the failure of any later element
+    of the written sequence fatal; only negative lookahead treats a fatal as a non-match; Or raises it only when no
+    alternative matches) against the real parse_string - outcome class and tokens"""
+    from .. import peg_ref
+    pp = common.import_pyparsing()
+    try:
+        b = gram.build(pp, job["prog"])
+        root = gram.prepare(b, job["root"])
+        ref = peg_ref.Ref(job["prog"], keyword_chars=pp.Keyword.DEFAULT_KEYWORD_CHARS, ws=pp.ParserElement.DEFAULT_WHITE_CHARS)
+    except Exception:  # noqa (builder refused, or outside the reading)
+        return 0, []
+    if corr_parse.nullable_rep(pp, root):
+        return 0, []
+    pp.ParserElement.disable_memoization()
+    n, bad = 0, []
+    for s in job["inputs"]:
+        try:
+            want = list(ref.parse(job["root"], s))
+        except (peg_ref.Unsupported, RecursionError):
+            continue
+
+        def real():
+            try:
+                return ["ok", json.loads(json.dumps(root.parse_string(s).as_list()))]
+            except pp.ParseFatalException:
+                return ["fatal"]
+            except pp.ParseBaseException:
+                return ["fail"]
+        try:
+            got = common.with_alarm(2.0, real)
+        except common.CaseTimeout:
+            got = ["hang"]
+        except RecursionError:
+            continue
+        n += 1
+        if got != json.loads(json.dumps(want)):
+            bad.append({"prog": job["prog"], "root": job["root"], "input": s, "expected": want, "actual": got})
+    return n, bad
+
+
+def run_ref(ctx, stream, jobs):
+    res = common.pmap(ref_job, jobs)
+    bad = [m for r_ in res for m in r_[1]]
+    ctx.count_cases(stream, sum(r_[0] for r_ in res), outcomes={"mismatch": len(bad)},
+                    distinct_keys=[json.dumps([j["prog"], x]) for j in jobs for x in j["inputs"]])
+    for m in sorted(bad, key=lambda m: (len(m["prog"]), len(m["input"])))[:2]:
+        ctx.fail_input("fatal exception / error stop backtracked over (or raised where the reading backtracks)",
+                       {"ref": True, **{k: m[k] for k in ("prog", "root", "input")}}, m["expected"], m["actual"],
+                       theorem="C07 statement (reference interpreter with error stops)", how="harness.props.c07.ref_job")
+
+
+def _ref_cfg():
+    from . import c01
+    cfg = dict(c01.PEG_CFG)
+    cfg["errorstop"] = 0.25
+    cfg["comp_kinds"] = [k for k in cfg["comp_kinds"] if k[0] != "Located"] + [("-", 8)]
+    return cfg
+
+
 def _targets(prog):
     return [st[0] for st in prog if st[0] != "_" and st[1] not in ("Forward",)]
 
@@ -368,6 +475,15 @@ def run(ctx):
     fatal_diffs(ctx, corr_parse.run_jobs(ctx, "model-vs-real:dashy", jobs))
     oj = or_fatal_jobs(ctx, ctx.budget(3000, 30000))
     fatal_diffs(ctx, corr_parse.run_jobs(ctx, "model-vs-real:or-fatal-templates", oj))
+    dj = dash_context_jobs(ctx, ctx.budget(1500, 15000))
+    fatal_diffs(ctx, corr_parse.run_jobs(ctx, "model-vs-real:dash-in-context", dj))
+    run_ref(ctx, "reference:dash-in-context", [dict(prog=j["prog"], root=j["root"], inputs=j["inputs"]) for j in dj])
+    rj = []
+    for i in range(ctx.budget(2000, 20000)):
+        rng = random.Random(f"C07-{ctx.seed}-ref-{i}")
+        prog, root, inputs = gen.gen_case(rng, gen.Cfg(**_ref_cfg()), 6)
+        rj.append(dict(prog=prog, root=root, inputs=inputs))
+    run_ref(ctx, "reference:dashy", rj)
     res = common.pmap(oracle_b_job, [dict(prog=j["prog"], root=j["root"], inputs=j["inputs"]) for j in oj])
     bad = [m for r_ in res for m in r_[1]]
     ctx.count_cases("oracle-B:or-fatal-templates", sum(r_[0] for r_ in res), outcomes={"mismatch": len(bad)})
@@ -382,6 +498,9 @@ def run(ctx):
 
 
 def replay(data):
+    if data.get("replay_kind") == "failing-input" and data["case"].get("ref"):
+        c = data["case"]
+        return bool(ref_job(dict(prog=c["prog"], root=c["root"], inputs=[c["input"]]))[1])
     if data.get("replay_kind") == "failing-input" and data["case"].get("corr"):
         c = data["case"]
         ctx = common.Ctx("C07", "quick", data.get("seed", 0))
